@@ -212,6 +212,25 @@ def mpi_case(c):
             out['prho'] = simdriver.block_info(rho)
             S.density.getRho(f, rho)
             out['rho'] = simdriver.block_info(rho)
+            # the finder is a function of its arguments: used again on a distribution that lives on ANOTHER process grid
+            # (other radial blocks on the same ranks) it must give what a fresh finder gives there
+            g2 = (nprocs[1], nprocs[0])
+            if g2 != tuple(nprocs) and g2[0] <= min(npts[0], npts[3], npts[1]) and g2[1] <= min(npts[2], npts[3]):
+                comm.Barrier()
+                S2 = simdriver.Sim(comm, npts, g2)
+                comm.Barrier()
+                f2, rho2 = S2.f, S2.rho
+                f2.setLayout('v_parallel')
+                L2 = f2.getLayout(f2.currentLayout)
+                gi2 = simdriver.global_index(L2, npts)
+                f2.getAllData()[:] = S2.density._fEq[gi2 // (npts[1] * npts[2] * npts[3]), gi2 % npts[3]] * (1.0 + simdriver.exact_field(gi2, seed) / 8.0)
+                S2.density.getPerturbedRho(f2, rho2)
+                fresh = np.array(rho2.getAllData(), copy=True)
+                try:
+                    S.density.getPerturbedRho(f2, rho2)
+                    out['reuse'] = bool(np.array_equal(fresh, rho2.getAllData()))
+                except Exception as e:
+                    out['reuse'] = 'raised %s: %s' % (type(e).__name__, str(e)[:100])
         if comm.Get_rank() == 0:
             c0 = S.constants
             out['table'] = np.array(S.density._fEq, copy=True)
@@ -473,6 +492,11 @@ def run():
                 ex, sc = exact_density(table[s:s + 2], quad, sub, True)
                 finder_meta.append((npts, s, np.transpose(ex, (0, 2, 1)), np.transpose(out['prho'][s:s + 2, 0:2, 0:2], (0, 2, 1)), np.transpose(sc, (0, 2, 1))))
             else:
+                bad_reuse = [(rk, x.get('reuse')) for rk, x in enumerate(ranks) if x.get('reuse', True) is not True]
+                if bad_reuse:
+                    chk.violation(key + ':finder-reused-on-another-process-grid', 'npts=%r: a DensityFinder first used on grid %r and then on a distribution living on grid %r '
+                                  'does not give what a fresh finder gives there (ranks %r)' % (npts, g, (g[1], g[0]), bad_reuse[:4]),
+                                  {'kind': 'impl', 'case': ['real', npts, list(g), seed], 'reuse': bad_reuse[:8]})
                 ref = serial.get(tuple(npts))
                 if ref is not None:
                     for fld in ('f', 'prho', 'rho'):
